@@ -66,7 +66,16 @@ class Loops:
                 fr.env[nm] = v
                 added.append(nm)
         try:
-            return self.ex.eval(self.parse(text), fr)
+            from .exec import PyRaise
+            from .values import ContractOutOfDate
+            try:
+                return self.ex.eval(self.parse(text), fr)
+            except PyRaise as pr:
+                if issubclass(pr.exc.cls, NameError):
+                    # the contract text names a local the function no longer has (renamed / removed): the contract
+                    # does not fit this code any more - undecided, never a verdict about the code
+                    raise ContractOutOfDate(f"loop contract clause `{text}` refers to a name the function does not bind") from None
+                raise
         finally:
             fr.spec_ok = prev
             for nm in added:
